@@ -3,4 +3,286 @@ import SigV4.Spec.TimeSpec
 
 namespace SigV4
 
+namespace Cal
+
+/-- The year-of-era formula of `civil_from_days` is correct: it yields a year of era whose first
+day is at or before `doe`, and `doe` is within that (March-based) year. -/
+theorem yoe_spec (doe yoe : Int) (h0 : 0 ≤ doe) (h1 : doe ≤ 146096)
+    (hy : yoe = (doe - doe / 1460 + doe / 36524 - doe / 146096) / 365) :
+    0 ≤ yoe ∧ yoe ≤ 399 ∧ 0 ≤ doe - (365 * yoe + yoe / 4 - yoe / 100) ∧
+    doe - (365 * yoe + yoe / 4 - yoe / 100) ≤ 365 ∧
+    (doe - (365 * yoe + yoe / 4 - yoe / 100) = 365 →
+      (yoe % 4 = 3 ∧ (yoe % 100 ≠ 99 ∨ yoe = 399))) := by
+  by_cases hlast : doe = 146096
+  · subst hlast; subst hy; decide
+  obtain ⟨c, r, hc, hr0, hr1⟩ : ∃ c r : Int, doe = 36524 * c + r ∧ 0 ≤ r ∧ r < 36524 :=
+    ⟨doe / 36524, doe % 36524, by omega, by omega, by omega⟩
+  obtain ⟨q, s, hq, hs0, hs1⟩ : ∃ q s : Int, r = 1461 * q + s ∧ 0 ≤ s ∧ s < 1461 :=
+    ⟨r / 1461, r % 1461, by omega, by omega, by omega⟩
+  have hc0 : 0 ≤ c := by omega
+  have hc4 : c ≤ 3 := by omega
+  have hq0 : 0 ≤ q := by omega
+  have hq4 : q ≤ 24 := by omega
+  have he : doe / 36524 = c := by omega
+  have hf : doe / 146096 = 0 := by omega
+  by_cases hδ : 24 * c + q + s < 1460
+  · have hd : doe / 1460 = 25 * c + q := by omega
+    rw [hd, he, hf] at hy
+    obtain ⟨y1, hy1, hy1a, hy1b⟩ : ∃ y1 : Int, y1 = s / 365 ∧ 0 ≤ y1 ∧ y1 ≤ 3 :=
+      ⟨_, rfl, by omega, by omega⟩
+    have hb : yoe = 100 * c + 4 * q + y1 := by omega
+    have hg : yoe / 4 = 25 * c + q := by omega
+    have hh : yoe / 100 = c := by omega
+    rw [hg, hh]
+    omega
+  · have hd : doe / 1460 = 25 * c + q + 1 := by omega
+    rw [hd, he, hf] at hy
+    have hb : yoe = 100 * c + 4 * q + 3 := by omega
+    have hg : yoe / 4 = 25 * c + q := by omega
+    have hh : yoe / 100 = c := by omega
+    rw [hg, hh]
+    omega
+
+theorem isLeapYear_iff (y : Int) :
+    isLeapYear y = true ↔ (y % 4 = 0 ∧ y % 100 ≠ 0) ∨ y % 400 = 0 := by
+  simp [isLeapYear]
+
+/-- `civilFromDays` in relational form. -/
+theorem civilFromDays_of (z era doe yoe doy mp : Int)
+    (hz : z + 719468 = era * 146097 + doe) (hd0 : 0 ≤ doe) (hd1 : doe ≤ 146096)
+    (hyoe : (doe - doe / 1460 + doe / 36524 - doe / 146096) / 365 = yoe)
+    (hdoy : doe - (365 * yoe + yoe / 4 - yoe / 100) = doy)
+    (hmp : (5 * doy + 2) / 153 = mp) :
+    civilFromDays z =
+      (if (if mp < 10 then mp + 3 else mp - 9) ≤ 2 then yoe + era * 400 + 1 else yoe + era * 400,
+        if mp < 10 then mp + 3 else mp - 9, doy - (153 * mp + 2) / 5 + 1) := by
+  have hera : (z + 719468) / 146097 = era := by omega
+  have hdoe : z + 719468 - era * 146097 = doe := by omega
+  simp only [civilFromDays, hera, hdoe, hyoe, hdoy, hmp]
+
+/-- The year of era is recovered from the day of era. -/
+theorem yoe_unique (yoe doy : Int) (h0 : 0 ≤ yoe) (h1 : yoe ≤ 399) (hd0 : 0 ≤ doy) (hd1 : doy ≤ 365)
+    (hleap : doy = 365 → (yoe % 4 = 3 ∧ (yoe % 100 ≠ 99 ∨ yoe = 399))) (doe : Int)
+    (hdoe : doe = yoe * 365 + yoe / 4 - yoe / 100 + doy) :
+    0 ≤ doe ∧ doe ≤ 146096 ∧ (doe - doe / 1460 + doe / 36524 - doe / 146096) / 365 = yoe := by
+  have hb0 : 0 ≤ doe := by omega
+  have hb1 : doe ≤ 146096 := by omega
+  refine ⟨hb0, hb1, ?_⟩
+  generalize hy : (doe - doe / 1460 + doe / 36524 - doe / 146096) / 365 = yoe'
+  obtain ⟨hy0, hy1, hdy0, hdy1, hleap'⟩ := yoe_spec doe yoe' hb0 hb1 hy.symm
+  clear hy
+  have hsplit : yoe' ≤ yoe - 2 ∨ yoe' = yoe - 1 ∨ yoe' = yoe ∨ yoe' = yoe + 1 ∨ yoe + 2 ≤ yoe' := by
+    omega
+  rcases hsplit with h | h | h | h | h
+  · exfalso; omega
+  · exfalso; subst h
+    have e4 : (yoe - 1) / 4 = yoe / 4 - (if yoe % 4 = 0 then 1 else 0) := by split <;> omega
+    have e100 : (yoe - 1) / 100 = yoe / 100 - (if yoe % 100 = 0 then 1 else 0) := by
+      split <;> omega
+    rw [e4, e100] at hdy0 hdy1 hleap'
+    by_cases h4 : yoe % 4 = 0 <;> by_cases h100 : yoe % 100 = 0 <;> simp only [h4, h100, if_true, if_false] at hdy0 hdy1 hleap' <;> omega
+  · exact h
+  · exfalso; subst h
+    have e4 : (yoe + 1) / 4 = yoe / 4 + (if yoe % 4 = 3 then 1 else 0) := by split <;> omega
+    have e100 : (yoe + 1) / 100 = yoe / 100 + (if yoe % 100 = 99 then 1 else 0) := by
+      split <;> omega
+    rw [e4, e100] at hdy0 hdy1 hleap'
+    by_cases h4 : yoe % 4 = 3 <;> by_cases h100 : yoe % 100 = 99 <;> simp only [h4, h100, if_true, if_false] at hdy0 hdy1 hleap' <;> omega
+  · exfalso; omega
+
+end Cal
+
+theorem civilFromDays_daysFromCivil (y m d : Int) (hm : 1 ≤ m ∧ m ≤ 12)
+    (hd : 1 ≤ d ∧ d ≤ daysInMonth y m) :
+    civilFromDays (daysFromCivil y m d) = (y, m, d) := by
+  obtain ⟨hd1, hd2⟩ := hd
+  obtain ⟨y', hy'⟩ : ∃ y' : Int, (if m ≤ 2 then y - 1 else y) = y' := ⟨_, rfl⟩
+  obtain ⟨era, yoe, hyy, hy0, hy1⟩ : ∃ era yoe : Int, y' = era * 400 + yoe ∧ 0 ≤ yoe ∧ yoe ≤ 399 :=
+    ⟨y' / 400, y' % 400, by omega, by omega, by omega⟩
+  obtain ⟨mp, hmp⟩ : ∃ mp : Int, (if m > 2 then m - 3 else m + 9) = mp := ⟨_, rfl⟩
+  obtain ⟨doy, hdoy⟩ : ∃ doy : Int, (153 * mp + 2) / 5 + d - 1 = doy := ⟨_, rfl⟩
+  have hE : y' / 400 = era := by omega
+  have hS : y' - era * 400 = yoe := by omega
+  have hdfc : daysFromCivil y m d =
+      era * 146097 + (yoe * 365 + yoe / 4 - yoe / 100 + doy) - 719468 := by
+    simp only [daysFromCivil, hy', hmp, hE, hS, hdoy]
+  have hcases : m = 1 ∨ m = 2 ∨ m = 3 ∨ m = 4 ∨ m = 5 ∨ m = 6 ∨ m = 7 ∨ m = 8 ∨ m = 9 ∨
+      m = 10 ∨ m = 11 ∨ m = 12 := by omega
+  have key : 0 ≤ doy ∧ doy ≤ 365 ∧ (doy = 365 → (yoe % 4 = 3 ∧ (yoe % 100 ≠ 99 ∨ yoe = 399))) ∧
+      (5 * doy + 2) / 153 = mp ∧ (if mp < 10 then mp + 3 else mp - 9) = m ∧
+      doy - (153 * mp + 2) / 5 + 1 = d ∧
+      (if m ≤ 2 then yoe + era * 400 + 1 else yoe + era * 400) = y := by
+    clear hdfc hE hS
+    rcases hcases with h | h | h | h | h | h | h | h | h | h | h | h <;> subst h <;>
+      simp [daysInMonth, Cal.isLeapYear_iff] at hd2 hy' hmp ⊢ <;> subst hmp <;>
+      simp at hdoy ⊢ <;> (try split at hd2) <;> omega
+  obtain ⟨k0, k1, kleap, kmp, km, kd, ky⟩ := key
+  obtain ⟨hb0, hb1, hyoe⟩ := Cal.yoe_unique yoe doy hy0 hy1 k0 k1 kleap _ rfl
+  rw [hdfc, Cal.civilFromDays_of _ era _ yoe doy mp (by omega) hb0 hb1 hyoe (by omega) kmp]
+  rw [km, kd, ky]
+
+theorem daysFromCivil_civilFromDays (z : Int) :
+    let c := civilFromDays z
+    daysFromCivil c.1 c.2.1 c.2.2 = z ∧ 1 ≤ c.2.1 ∧ c.2.1 ≤ 12 ∧ 1 ≤ c.2.2 ∧ c.2.2 ≤ daysInMonth c.1 c.2.1 := by
+  intro c
+  obtain ⟨era, doe, hz, hd0, hd1⟩ : ∃ era doe, z + 719468 = era*146097 + doe ∧ 0 ≤ doe ∧ doe ≤ 146096 := ⟨(z+719468)/146097, (z+719468)%146097, by omega, by omega, by omega⟩
+  have hera : (z+719468)/146097 = era := by omega
+  have hc : c = civilFromDays z := rfl
+  simp only [civilFromDays, hera] at hc
+  have hdoe : z + 719468 - era * 146097 = doe := by omega
+  simp only [hdoe] at hc
+  generalize hyoe : (doe - doe / 1460 + doe / 36524 - doe / 146096) / 365 = yoe at hc
+  obtain ⟨hy0, hy1, hdy0, hdy1, hleap⟩ := Cal.yoe_spec doe yoe hd0 hd1 hyoe.symm
+  generalize hdoy : doe - (365 * yoe + yoe / 4 - yoe / 100) = doy at hc hdy0 hdy1 hleap
+  generalize hmp : (5 * doy + 2) / 153 = mp at hc
+  have hmp0 : 0 ≤ mp := by omega
+  have hmp1 : mp ≤ 11 := by omega
+  rw [hc]
+  clear hc c hyoe hera hdoe
+  have hcases : mp = 0 ∨ mp = 1 ∨ mp = 2 ∨ mp = 3 ∨ mp = 4 ∨ mp = 5 ∨ mp = 6 ∨ mp = 7 ∨ mp = 8 ∨
+      mp = 9 ∨ mp = 10 ∨ mp = 11 := by omega
+  rcases hcases with h | h | h | h | h | h | h | h | h | h | h | h <;> subst h <;>
+    simp [daysFromCivil, daysInMonth, Cal.isLeapYear_iff]
+  all_goals have hE : (yoe + era * 400) / 400 = era := by omega
+  all_goals try rw [hE]
+  all_goals try have hE1 : (yoe + era * 400 + 1 - 1) / 400 = era := by omega
+  all_goals try rw [hE1]
+  all_goals try rw [show yoe + era * 400 - era * 400 = yoe by omega]
+  all_goals try rw [show yoe + era * 400 + 1 - 1 - era * 400 = yoe by omega]
+  all_goals omega
+
+namespace Cal
+
+theorem digitByte_spec (n : Int) :
+    isDigit (digitByte n) = true ∧ digitVal (digitByte n) = (n % 10).toNat ∧
+    digitByte n ≠ 0x2D ∧ digitByte n ≠ 0x3A := by
+  have hk : (n % 10).toNat < 10 := by omega
+  unfold digitByte
+  generalize (n % 10).toNat = k at hk
+  have hcases : k = 0 ∨ k = 1 ∨ k = 2 ∨ k = 3 ∨ k = 4 ∨ k = 5 ∨ k = 6 ∨ k = 7 ∨ k = 8 ∨ k = 9 := by
+    omega
+  rcases hcases with h | h | h | h | h | h | h | h | h | h <;> subst h <;> decide
+
+theorem takeDigits2_pad2 (n : Int) (h0 : 0 ≤ n) (h1 : n ≤ 99) (rest : Bytes) :
+    takeDigits 2 (pad2 n ++ rest) = some (n.toNat, rest) := by
+  obtain ⟨a1, a2, _, _⟩ := digitByte_spec (n / 10)
+  obtain ⟨b1, b2, _, _⟩ := digitByte_spec n
+  simp only [pad2, List.cons_append, List.nil_append, takeDigits, a1, b1, if_true, a2, b2]
+  congr 2
+  omega
+
+theorem takeDigits4_pad4 (n : Int) (h0 : 0 ≤ n) (h1 : n ≤ 9999) (rest : Bytes) :
+    takeDigits 4 (pad4 n ++ rest) = some (n.toNat, rest) := by
+  obtain ⟨a1, a2, _, _⟩ := digitByte_spec (n / 1000)
+  obtain ⟨b1, b2, _, _⟩ := digitByte_spec (n / 100)
+  obtain ⟨c1, c2, _, _⟩ := digitByte_spec (n / 10)
+  obtain ⟨d1, d2, _, _⟩ := digitByte_spec n
+  simp only [pad4, List.cons_append, List.nil_append, takeDigits, a1, b1, c1, d1, if_true,
+    a2, b2, c2, d2]
+  congr 2
+  omega
+
+theorem skipOpt_pad2 (c : UInt8) (hc : c = 0x2D ∨ c = 0x3A) (n : Int) (rest : Bytes) :
+    skipOpt c (pad2 n ++ rest) = pad2 n ++ rest := by
+  obtain ⟨_, _, a3, a4⟩ := digitByte_spec (n / 10)
+  rcases hc with rfl | rfl <;> simp [pad2, skipOpt, a3, a4]
+
+theorem matchIso_compact (Y M D hh mm ss : Int)
+    (hY : 0 ≤ Y ∧ Y ≤ 9999) (hM : 1 ≤ M ∧ M ≤ 12) (hD : 1 ≤ D ∧ D ≤ 31)
+    (hh0 : 0 ≤ hh ∧ hh ≤ 23) (hm0 : 0 ≤ mm ∧ mm ≤ 59) (hs0 : 0 ≤ ss ∧ ss ≤ 59) :
+    matchIso (pad4 Y ++ (pad2 M ++ (pad2 D ++ (0x54 :: (pad2 hh ++ (pad2 mm ++ (pad2 ss ++ [0x5A]))))))) =
+      some { year := Y.toNat, month := M.toNat, day := D.toNat, hour := hh.toNat,
+             minute := mm.toNat, second := ss.toNat, frac := [], offsetSecs := 0 } := by
+  unfold matchIso
+  rw [takeDigits4_pad4 Y hY.1 hY.2]
+  simp only []
+  rw [skipOpt_pad2 _ (Or.inl rfl), takeDigits2_pad2 M (by omega) (by omega)]
+  simp only []
+  rw [if_neg (by omega)]
+  rw [skipOpt_pad2 _ (Or.inl rfl), takeDigits2_pad2 D (by omega) (by omega)]
+  simp only []
+  rw [if_neg (by omega)]
+  simp only [expect, if_true]
+  rw [takeDigits2_pad2 hh (by omega) (by omega)]
+  simp only []
+  rw [if_neg (by omega)]
+  rw [skipOpt_pad2 _ (Or.inr rfl), takeDigits2_pad2 mm (by omega) (by omega)]
+  simp only []
+  rw [if_neg (by omega)]
+  rw [skipOpt_pad2 _ (Or.inr rfl), takeDigits2_pad2 ss (by omega) (by omega)]
+  simp only []
+  rw [if_neg (by omega)]
+  rw [if_neg (by decide)]
+  rfl
+
+theorem daysInMonth_le (y m : Int) : daysInMonth y m ≤ 31 := by
+  unfold daysInMonth
+  split
+  · split <;> omega
+  · split <;> omega
+
+/-- The compact rendering, right-associated, for a four-digit year. -/
+theorem compactUtc_eq (t : Int) (hy : 0 ≤ (utcDate t).1 ∧ (utcDate t).1 ≤ 9999) :
+    compactUtc t =
+      pad4 (utcDate t).1 ++ (pad2 (utcDate t).2.1 ++ (pad2 (utcDate t).2.2 ++ (0x54 ::
+        (pad2 (t / NS_PER_SEC % 86400 / 3600) ++ (pad2 (t / NS_PER_SEC % 86400 % 3600 / 60) ++
+          (pad2 (t / NS_PER_SEC % 86400 % 60) ++ [0x5A])))))) := by
+  simp only [compactUtc, fmtDate, fmtYear, if_pos hy, List.append_assoc, List.cons_append,
+    List.nil_append]
+
+end Cal
+
+theorem compact_shape (t : Int) (hy : 0 ≤ (utcDate t).1 ∧ (utcDate t).1 ≤ 9999) :
+    (compactUtc t).length = 16 ∧ (compactUtc t)[8]? = some 0x54 ∧ (compactUtc t)[15]? = some 0x5A ∧
+    (compactUtc t).take 8 = fmtDate (utcDate t) := by
+  rw [Cal.compactUtc_eq t hy]
+  simp [fmtDate, fmtYear, if_pos hy, pad4, pad2]
+
+theorem compact_roundtrip (t : Int) (hy : 0 ≤ (utcDate t).1 ∧ (utcDate t).1 ≤ 9999) :
+    parseIso (compactUtc t) = some (t - t % NS_PER_SEC) := by
+  rw [Cal.compactUtc_eq t hy]
+  have hc := daysFromCivil_civilFromDays (t / NS_PER_SEC / 86400)
+  simp only [] at hc
+  change daysFromCivil (utcDate t).1 (utcDate t).2.1 (utcDate t).2.2 = _ ∧
+    1 ≤ (utcDate t).2.1 ∧ (utcDate t).2.1 ≤ 12 ∧ 1 ≤ (utcDate t).2.2 ∧
+    (utcDate t).2.2 ≤ daysInMonth (utcDate t).1 (utcDate t).2.1 at hc
+  generalize utcDate t = c at hy hc ⊢
+  obtain ⟨Y, M, D⟩ := c
+  simp only [] at hy hc ⊢
+  obtain ⟨hdfc, hM1, hM2, hD1, hD2⟩ := hc
+  have hD31 := Cal.daysInMonth_le Y M
+  generalize hsecs : t / NS_PER_SEC = secs
+  have hsod0 : 0 ≤ secs % 86400 := by omega
+  have hsod1 : secs % 86400 < 86400 := by omega
+  unfold parseIso
+  rw [Cal.matchIso_compact Y M D _ _ _ hy ⟨hM1, hM2⟩ ⟨hD1, by omega⟩ (by omega) (by omega) (by omega)]
+  simp only []
+  have hYc : ((Y.toNat : Nat) : Int) = Y := Int.toNat_of_nonneg hy.1
+  have hMc : ((M.toNat : Nat) : Int) = M := Int.toNat_of_nonneg (by omega)
+  have hDc : ((D.toNat : Nat) : Int) = D := Int.toNat_of_nonneg (by omega)
+  have hv : fieldsValid
+      { year := Y.toNat, month := M.toNat, day := D.toNat, hour := (secs % 86400 / 3600).toNat,
+        minute := (secs % 86400 % 3600 / 60).toNat, second := (secs % 86400 % 60).toNat, frac := [],
+        offsetSecs := 0 } = true := by
+    simp only [fieldsValid, hYc, hMc, hDc, Bool.and_eq_true, decide_eq_true_eq]
+    refine ⟨⟨⟨⟨⟨⟨?_, ?_⟩, ?_⟩, hD2⟩, ?_⟩, ?_⟩, ?_⟩ <;> omega
+  rw [if_pos hv]
+  congr 1
+  have hhc : (((secs % 86400 / 3600).toNat : Nat) : Int) = secs % 86400 / 3600 :=
+    Int.toNat_of_nonneg (by omega)
+  have hmc : (((secs % 86400 % 3600 / 60).toNat : Nat) : Int) = secs % 86400 % 3600 / 60 :=
+    Int.toNat_of_nonneg (by omega)
+  have hsc : (((secs % 86400 % 60).toNat : Nat) : Int) = secs % 86400 % 60 :=
+    Int.toNat_of_nonneg (by omega)
+  have hfr : fracNanos [] = 0 := by simp [fracNanos]
+  simp only [fieldsInstant, hYc, hMc, hDc, hhc, hmc, hsc, hdfc, hsecs, hfr]
+  subst hsecs
+  simp only [NS_PER_SEC]
+  omega
+
 end SigV4
+
+#print axioms SigV4.civilFromDays_daysFromCivil
+#print axioms SigV4.daysFromCivil_civilFromDays
+#print axioms SigV4.compact_roundtrip
+#print axioms SigV4.compact_shape
